@@ -13,6 +13,7 @@ import CLModel.Proofs.C04Bytes
 import CLModel.Proofs.C04Quiet
 import CLModel.Proofs.C04MultiProps
 import CLModel.Proofs.C04Dtd
+import CLModel.Proofs.C04Session
 import CLModel.Proofs.C02XInc
 namespace C04
 open Merge Gen.Tables
@@ -853,5 +854,162 @@ theorem android_bytes_spec (l10n ref : List Nat) (ms : List (List Nat)) (sk : Sk
     rw [MergeB.mergeBytes, (android_merge_spec _ ms).2.2.1 sk h]
 
 end Android
+
+/-! ## Round 5 — SESSIONS: one `ContentComparer` with a merge stage, a sequence of `compare` / `add` / `remove` jobs
+
+`MergeS.step : St → Job → Except _ (St × FileOut)` (Compare/MergeSession.lean) is the comparer as a state machine; its
+state lists everything a job can reach (`obs` = `self.observers`, `files` / `dirs` = the merge stage).  The theorems say
+that NOTHING a job stages depends on that state — hence on the jobs that ran before: the class of regressions "the comparer
+remembers something per extension / per comparer / between files" contradicts them, and the harness replays them on the real
+code (`c04.session`, sessions against fresh comparers).  The parser is chosen per NAME by the generated `__constructors`
+table (`MergeS.capsOfName` over `Lint.getParserName`). -/
+
+section Session
+open MergeS MergeB ObsM C04S
+
+/-- ONE STEP: whatever state the comparer is in (observers that have seen any history, any stage), what a job stages is
+    `jobOut` of the job and the project filters -/
+theorem session_step_stateless (s s' : St) (j : Job) (out : FileOut) (h : MergeS.step s j = .ok (s', out)) :
+    out = jobOut (filtersOf s) j := step_out_stateless h
+
+/-- SESSION = POINTWISE: the outcomes of a session on one comparer are the per-job outcomes; no state is carried -/
+theorem session_merge_is_pointwise (s s' : St) (jobs : List Job) (outs : List FileOut) (h : run s jobs = .ok (s', outs)) :
+    outs = jobs.map (jobOut (filtersOf s)) := (run_spec jobs s s' outs h).1
+
+/-- … and the project filters are the same afterwards -/
+theorem session_filters_fixed (s s' : St) (jobs : List Job) (outs : List FileOut) (h : run s jobs = .ok (s', outs)) :
+    filtersOf s' = filtersOf s := (run_spec jobs s s' outs h).2.1
+
+/-- THE STAGE IS THE FOLD: after the session the stage is the initial stage with every `bytes` outcome written at its
+    job's merge path, in job order; nothing else is created, changed or removed -/
+theorem session_stage_is_fold (s s' : St) (jobs : List Job) (outs : List FileOut) (h : run s jobs = .ok (s', outs)) :
+    s'.files = stageOf s.files (jobs.map (fun j => (j.mergePath, jobOut (filtersOf s) j))) := (run_spec jobs s s' outs h).2.2
+
+/-- a session over files without a legacy module always returns (the observers never raise), from a fresh comparer -/
+theorem session_returns (quiet : Nat) (filters : List (Option Filter)) (jobs : List Job) :
+    ∃ s' outs, run (St.init quiet filters) jobs = .ok (s', outs) := run_total jobs _ (init_inv quiet filters)
+
+/-- SESSION = FRESH COMPARER PER JOB: job `i` of a session stages exactly what the same job stages on a comparer of its
+    own (any quiet level) -/
+theorem session_equals_fresh (quiet quiet' : Nat) (filters : List (Option Filter)) (jobs : List Job) (s' : St)
+    (outs : List FileOut) (h : run (St.init quiet filters) jobs = .ok (s', outs)) (i : Nat) (j : Job) (hj : jobs[i]? = some j) :
+    ∃ sf o, run (St.init quiet' filters) [j] = .ok (sf, [o]) ∧ outs[i]? = some o := by
+  obtain ⟨sf, os, hf⟩ := session_returns quiet' filters [j]
+  have h1 := session_merge_is_pointwise _ _ _ _ hf
+  have h2 := session_merge_is_pointwise _ _ _ _ h
+  rw [init_filters] at h1 h2
+  refine ⟨sf, jobOut filters j, by rw [hf, h1]; rfl, ?_⟩
+  rw [h2, List.getElem?_map, hj]; rfl
+
+/-- HISTORY IRRELEVANT: the same job after two different histories, on two comparers with the same filters, stages the same -/
+theorem session_job_independent_of_history (sa sb sa' sb' : St) (preA preB postA postB : List Job) (j : Job)
+    (outsA outsB : List FileOut) (hf : filtersOf sa = filtersOf sb)
+    (ha : run sa (preA ++ j :: postA) = .ok (sa', outsA)) (hb : run sb (preB ++ j :: postB) = .ok (sb', outsB)) :
+    outsA[preA.length]? = outsB[preB.length]? := by
+  rw [session_merge_is_pointwise _ _ _ _ ha, session_merge_is_pointwise _ _ _ _ hb, hf]
+  simp
+
+/-- OTHERWISE UNTOUCHED: with pairwise distinct merge paths, what a job staged is at its path at the end of the session,
+    byte for byte, whatever ran before or after it -/
+theorem session_job_file_kept (s s' : St) (jobs : List Job) (outs : List FileOut) (h : run s jobs = .ok (s', outs))
+    (hd : (jobs.filterMap (·.mergePath)).Nodup) (j : Job) (hj : j ∈ jobs) (p : List Nat) (hp : j.mergePath = some p) :
+    getFile s'.files p = match jobOut (filtersOf s) j with | .bytes b => some b | _ => getFile s.files p := by
+  rw [session_stage_is_fold s s' jobs outs h, getFile_stageOf]
+  have hd' : ((jobs.map (fun j => (j.mergePath, jobOut (filtersOf s) j))).filterMap (·.1)).Nodup := by
+    rw [List.filterMap_map]; exact hd
+  have hm : (some p, jobOut (filtersOf s) j) ∈ jobs.map (fun j => (j.mergePath, jobOut (filtersOf s) j)) :=
+    List.mem_map.mpr ⟨j, hj, by rw [hp]⟩
+  rw [lastBytes_of_mem hd' hm]
+  cases jobOut (filtersOf s) j <;> rfl
+
+/-- ORDER IRRELEVANT: two sessions running the same jobs (pairwise distinct merge paths) in different orders, from the same
+    stage on comparers with the same filters, leave the same file at every path — "unknown `notes.xml` first, then Android"
+    and "Android first, then `notes.xml`" cannot differ -/
+theorem session_order_irrelevant (s1 s2 s1' s2' : St) (jobs1 jobs2 : List Job) (outs1 outs2 : List FileOut)
+    (hperm : jobs1.Perm jobs2) (hd : (jobs1.filterMap (·.mergePath)).Nodup)
+    (hf : filtersOf s1 = filtersOf s2) (hfiles : s1.files = s2.files)
+    (h1 : run s1 jobs1 = .ok (s1', outs1)) (h2 : run s2 jobs2 = .ok (s2', outs2)) (p : List Nat) :
+    getFile s1'.files p = getFile s2'.files p := by
+  rw [session_stage_is_fold _ _ _ _ h1, session_stage_is_fold _ _ _ _ h2, hf, hfiles]
+  apply getFile_stageOf_perm (hperm.map _)
+  rw [List.filterMap_map]; exact hd
+
+/-! ### the parser is a function of the NAME, not of the extension -/
+
+/-- look-alike names and what the generated `__constructors` table says about them -/
+theorem parser_by_name_witness :
+    capsOfName (ofString "strings.xml") = some cap_android ∧
+    capsOfName (ofString "strings-more.xml") = some cap_android ∧
+    capsOfName (ofString "res/values/strings.xml") = some cap_android ∧
+    capsOfName (ofString "notes.xml") = none ∧
+    capsOfName (ofString "values.xml") = none ∧
+    capsOfName (ofString "extra.xml") = none ∧
+    capsOfName (ofString "strings.xml.orig") = none ∧
+    capsOfName (ofString "foo.properties.orig") = none ∧
+    capsOfName (ofString "foo.properties") = some cap_properties ∧
+    capsOfName (ofString "a.inc") = some cap_inc ∧
+    capsOfName (ofString "a.ini") = some cap_ini ∧
+    capsOfName (ofString "a.pot") = some cap_po ∧
+    capsOfName (ofString "unknown.txt") = none ∧
+    capsOfName (ofString "README") = none := by decide
+
+/-! ### the regression class: a comparer that remembers parser lookups under a key of the name -/
+
+/-- what such a comparer stages: the stateless per-job function, fed with what the memory answers -/
+theorem cached_session_spec {K : Type} [BEq K] (key : List Nat → K) (cs cs' : CSt K) (jobs : List Job) (outs : List FileOut)
+    (h : crun key cs jobs = .ok (cs', outs)) : outs = cachedOuts key (filtersOf cs.st) cs.cache jobs :=
+  crun_spec jobs cs cs' outs h
+
+/-- THE CACHE IS SOUND IF IT IS KEYED BY EVERYTHING THE RESULT DEPENDS ON: if `key a = key b` implies that `getParser`
+    answers the same for `a` and `b`, a session on the remembering comparer is a session on the real one -/
+theorem cached_session_eq_of_sufficient_key {K : Type} [BEq K] [LawfulBEq K] (key : List Nat → K) (hk : KeySufficient key)
+    (s : St) (cs' : CSt K) (jobs : List Job) (outs : List FileOut)
+    (h : crun key { st := s } jobs = .ok (cs', outs)) : run s jobs = .ok (cs'.st, outs) :=
+  crun_eq_run hk jobs { st := s } cs' outs (by intro e he; cases he) h
+
+/-- the whole name is a sufficient key -/
+theorem name_key_sufficient : KeySufficient (fun n : List Nat => n) := by
+  intro a b h; rw [show a = b from h]
+
+/-- THE EXTENSION IS NOT: `notes.xml` and `strings-more.xml` share `.xml` and differ in `getParser` -/
+theorem ext_key_insufficient_witness :
+    extOf (ofString "notes.xml") = extOf (ofString "strings-more.xml") ∧
+    capsOfName (ofString "notes.xml") ≠ capsOfName (ofString "strings-more.xml") ∧ ¬ KeySufficient extOf := by
+  refine ⟨by decide, by decide, fun h => ?_⟩
+  exact absurd (h (ofString "notes.xml") (ofString "strings-more.xml") (by decide)) (by decide)
+
+/-- unknown `notes.xml` compared (CRLF bytes `n⏎`), then a MISSING Android `strings-more.xml` -/
+def witnessUnknownFirst : List Job :=
+  [{ kind := .compare, name := ofString "notes.xml", mergePath := some (ofString "notes.xml"), l10n := [110, 13, 10], ref := [114, 10],
+     skips := [{ span := some (0, 0), junk := true, refAll := [] }] },
+   { kind := .add, name := ofString "strings-more.xml", mergePath := some (ofString "strings-more.xml"), ref := [60, 114, 47, 62, 10], nref := 1 }]
+
+/-- Android `strings.xml` compared (clean), then unknown `notes.xml` (CRLF bytes; the skip is the junk an Android parse of it
+    would report), then a MISSING unknown `extra.xml` -/
+def witnessAndroidFirst : List Job :=
+  [{ kind := .compare, name := ofString "strings.xml", mergePath := some (ofString "strings.xml"), l10n := [60, 114, 47, 62, 10], ref := [60, 114, 47, 62, 10] },
+   { kind := .compare, name := ofString "notes.xml", mergePath := some (ofString "notes.xml"), l10n := [110, 13, 10], ref := [114, 10],
+     skips := [{ span := some (0, 0), junk := true, refAll := [] }] },
+   { kind := .add, name := ofString "extra.xml", mergePath := some (ofString "extra.xml"), ref := [101, 10] }]
+
+/-- the missed regression, in the model: keyed by extension the memory makes the session stage ENGLISH for the missing
+    Android file (first history), re-encode the unknown file CRLF → LF and stage nothing for the missing unknown file
+    (second history); the real comparer (`jobOut`, by `session_merge_is_pointwise`) copies verbatim / stages nothing /
+    stages the reference -/
+theorem ext_cache_breaks_session_witness :
+    witnessUnknownFirst.map (jobOut [none]) = [.bytes [110, 13, 10], .noFile] ∧
+    cachedOuts extOf [none] [] witnessUnknownFirst = [.bytes [110, 13, 10], .bytes [60, 114, 47, 62, 10]] ∧
+    witnessAndroidFirst.map (jobOut [none]) = [.bytes [60, 114, 47, 62, 10], .bytes [110, 13, 10], .bytes [101, 10]] ∧
+    cachedOuts extOf [none] [] witnessAndroidFirst = [.bytes [60, 114, 47, 62, 10], .bytes [110, 10], .noFile] := by decide
+
+/-- non-vacuity: the two witness sessions run on a fresh comparer, and their outcomes are the stateless ones -/
+example : ∃ s' outs, run (St.init 0 [none]) witnessAndroidFirst = .ok (s', outs) ∧
+    outs = [.bytes [60, 114, 47, 62, 10], .bytes [110, 13, 10], .bytes [101, 10]] := by
+  obtain ⟨s', outs, h⟩ := session_returns 0 [none] witnessAndroidFirst
+  refine ⟨s', outs, h, ?_⟩
+  rw [session_merge_is_pointwise _ _ _ _ h, init_filters]
+  exact ext_cache_breaks_session_witness.2.2.1
+
+end Session
 
 end C04
